@@ -60,6 +60,20 @@ func init() { specialTypes = append(specialTypes, sameNameA(), sameNameB()) }
 const firstHuge = 4 // index of the first huge type in specialTypes
 
 func regType(i int) reflect.Type {
+	if i >= 1000 {
+		// types derived from another type of the pool (resources only): *T, [1]T, []T, struct{ F T }
+		base := regType(i % 1000)
+		switch i / 1000 {
+		case 1:
+			return reflect.PointerTo(base)
+		case 2:
+			return reflect.ArrayOf(1, base)
+		case 3:
+			return reflect.SliceOf(base)
+		default:
+			return reflect.StructOf([]reflect.StructField{{Name: "F", Type: base}})
+		}
+	}
 	if i < comps.N {
 		return comps.All[i].Type
 	}
@@ -868,6 +882,15 @@ func testRegistry(rt *rapid.T, st *RunStats) {
 			ti := perm[rapid.IntRange(0, min(nextRes+2, nRegTypes-1)).Draw(t, "resType")]
 			if rapid.IntRange(0, 3).Draw(t, "theKeptResource") == 0 {
 				ti = comps.N + lastHuge + 1 // the type with the kept typed handle
+			}
+			if rapid.IntRange(0, 3).Draw(t, "derivedResourceType") == 0 {
+				// a type derived from a pool type that is registered already or will be soon: distinct types, distinct IDs
+				base := perm[rapid.IntRange(0, min(nextRes+2, nRegTypes-1)).Draw(t, "baseType")]
+				if len(resM.order) > 0 && rapid.Bool().Draw(t, "ofRegistered") {
+					base = rapid.SampledFrom(resM.order).Draw(t, "registeredBase") % 1000
+				}
+				ti = base + 1000*rapid.IntRange(1, 4).Draw(t, "derivation")
+				cls["resource-type-derived-from-another"] = true
 			}
 			tp := regType(ti)
 			id, known := resM.ids[ti]
